@@ -2,7 +2,7 @@
 # usage: coqshow.sh FILE LINE  -- show the proof state after line LINE of FILE (relative to coq/)
 f=$1; n=$2
 tmp=$(mktemp /tmp/showXXXX.v)
-head -n $n $f > $tmp
+head -n $n /verif/coq/$f > $tmp
 echo "Show." >> $tmp
 cd /verif/coq && timeout 120 coqc -Q . Sylt $tmp 2>&1 | grep -v "^File\|^Error: There are pending" | head -${3:-80}
 rm -f $tmp ${tmp%.v}.vo ${tmp%.v}.glob ${tmp%.v}.vok ${tmp%.v}.vos
